@@ -19,13 +19,24 @@ import (
 	kit "github.com/gotid/god/internal/verifkit"
 )
 
-var c01Kinds = [][2]string{
-	{"do", "ok"}, {"doacc", "ok"}, {"doacc", "acc"}, {"dofb", "ok"}, {"dofbacc", "ok"}, {"dofbacc", "acc"}, {"allow", "accept"},
-	{"do", "err"}, {"do", "panic"}, {"doacc", "err"}, {"doacc", "panic"}, {"dofb", "err"}, {"dofb", "panic"},
-	{"dofbacc", "err"}, {"dofbacc", "panic"}, {"allow", "reject"},
+// kinds of calls: api, outcome of the protected function, acceptable-predicate (Breaker.tla: set of
+// accepted results, bit 1 = nil, 2 = errAcc, 4 = errUnacc; unused for do/dofb/allow)
+type c01Kind struct {
+	api, oc string
+	n       int
 }
 
-const c01FirstFail = 7 // index of the first failing kind in c01Kinds
+var c01Kinds = []c01Kind{
+	// successes
+	{"do", "ok", 0}, {"doacc", "ok", 3}, {"doacc", "acc", 3}, {"dofb", "ok", 0}, {"dofbacc", "ok", 3}, {"dofbacc", "acc", 3},
+	{"allow", "accept", 0}, {"doacc", "err", 7}, {"dofbacc", "err", 4}, {"doacc", "acc", 2}, {"dofbacc", "ok", 5},
+	// failures
+	{"do", "err", 0}, {"do", "panic", 0}, {"doacc", "err", 3}, {"doacc", "panic", 3}, {"dofb", "err", 0}, {"dofb", "panic", 0},
+	{"dofbacc", "err", 3}, {"dofbacc", "panic", 3}, {"allow", "reject", 0},
+	{"doacc", "ok", 6}, {"dofbacc", "ok", 2}, {"doacc", "ok", 0}, {"dofbacc", "acc", 5}, {"doacc", "panic", 7},
+}
+
+const c01FirstFail = 11 // index of the first failing kind in c01Kinds
 
 func TestVerifC01Trace(t *testing.T) {
 	path := kit.Env("VERIF_TRACE", "")
@@ -60,9 +71,9 @@ func TestVerifC01Trace(t *testing.T) {
 		coinRng = rand.New(rand.NewSource(rng.Int63()))
 		lenient = []float64{0, 0.3, 0.7}[rng.Intn(3)] // share of "do not reject" answers
 		tr.Emit(kit.M{"e": "reset", "kind": "core"})
-		one := func(p int, k [2]string, yield bool) {
-			tr.Emit(kit.M{"e": "inv", "p": p, "api": k[0], "oc": k[1]})
-			o := tg.doWith(name, verifc01.Call{Api: k[0], Oc: k[1]}, func() {
+		one := func(p int, k c01Kind, yield bool) {
+			tr.Emit(kit.M{"e": "inv", "p": p, "api": k.api, "oc": k.oc, "n": k.n})
+			o := tg.doWith(name, verifc01.Call{Api: k.api, Oc: k.oc, N: k.n}, func() {
 				tr.Emit(kit.M{"e": "req", "p": p})
 				if yield {
 					runtime.Gosched()
@@ -77,7 +88,7 @@ func TestVerifC01Trace(t *testing.T) {
 			// sequential preload brings the window near the threshold
 			pre := rng.Intn(9)
 			for i := 0; i < pre; i++ {
-				var k [2]string
+				var k c01Kind
 				if rng.Intn(4) == 0 {
 					k = c01Kinds[rng.Intn(c01FirstFail)]
 				} else {
@@ -88,7 +99,7 @@ func TestVerifC01Trace(t *testing.T) {
 			}
 			g := 2 + rng.Intn(3)
 			per := 1 + rng.Intn(3)
-			plan := make([][][2]string, g)
+			plan := make([][]c01Kind, g)
 			for w := range plan {
 				for i := 0; i < per; i++ {
 					plan[w] = append(plan[w], c01Kinds[rng.Intn(len(c01Kinds))])
